@@ -342,12 +342,16 @@ def setPar (fs : List Field) (p : Nat) : List Field :=
     fs.map fun f => match f with | .par _ => .par p | g => g
   else fs ++ [.par p]
 
-/-- `holder.add_class(c)`: `holder.classes[c.name] = c; c.parent = holder` -/
+/-- `holder.add_class(c)`: `holder.classes[c.name] = c; c.parent = holder` — a class of that name that
+    `holder` already holds is replaced (it is dropped from `holder`, nothing of it is kept or written) -/
 def addClassEdit (h : Heap) (holder c : Nat) : Edit :=
   match h[holder]?, h[c]? with
   | some oh, some oc =>
     { allocs := []
-      writes := [(holder, { oh with fields := oh.fields ++ [.own c] }), (c, { oc with fields := setPar oc.fields holder })] }
+      writes := [(holder, { oh with fields := (oh.fields.filter fun f => match f with
+                              | .own i => i == c || !(isClassNamed h oc.name i)
+                              | _ => true) ++ [.own c] }),
+                 (c, { oc with fields := setPar oc.fields holder })] }
   | _, _ => { allocs := [], writes := [] }
 
 /-- `c.parent = None` -/
